@@ -21,7 +21,7 @@ def parse(path):
         m = re.match(r"##### (C\d+)/(\d+)", line)
         if m:
             cur = (m.group(1), m.group(2))
-            out[cur] = {"checks": {}, "lines": []}
+            out[cur] = {"checks": {}, "lines": [], "applies": True}
             continue
         if cur is None:
             continue
